@@ -8,6 +8,12 @@ scaffold that is absent from the map must be written to the assembly the stateme
   scaffold carries a haplotype tag                        -> that haplotype's assembly
   unplaced (unpainted or absent) scaffold whose input name starts with <haplotype>_ (case-insensitive) -> that haplotype
   everything else                                         -> primary
+"Absent from the map" is judged contig by contig: a contig of the input assembly none of whose bases lies inside a piece
+of the map is absent, whether its whole input scaffold is missing (a scaffold shorter than a texel) or only a part of it
+(the tail PretextView rounds away, a piece the curator threw out of the map while other contigs of the same input scaffold
+are painted into a Target scaffold, sit in an untagged scaffold, or carry a tag).  Its destination does not depend on where
+the rest of its input scaffold went: Contaminant if a Target tag is seen anywhere in the map, else the haplotype its input
+scaffold is named after, else primary.
 Known class "name-derived-haplotype" (README.md): an unplaced input scaffold whose name matches ^[^_]+_.+_\\d+$ with a
 prefix that is not a haplotype tag of the map is routed to an invented assembly.
 
@@ -47,6 +53,8 @@ Documented destinations in this mode, per piece:
    documented to sit on the FIRST painted chromosome of that haplotype; the generator puts only tagged pieces before it).
 """
 
+import itertools
+import math
 import pathlib
 import random
 import tempfile
@@ -70,8 +78,37 @@ def hap_by_name(name, hap_tags):
     return None
 
 
+def leftover_contigs(case):
+    """
+    {input scaffold name: [contig rows]} for input scaffolds of which a part IS in the map: the contigs that have no base
+    inside any piece of the map (piece coordinates are positions in the input scaffold)
+    """
+    spans = {}
+    for psc in case["map"]["scaffolds"]:
+        for p in psc:
+            spans.setdefault(p[0], []).append((p[1], p[2]))
+    out = {}
+    for s in case["input"]:
+        mine = spans.get(s["name"])
+        if not mine:
+            continue
+        pos = 0
+        rows = []
+        for r in s["rows"]:
+            a, b = pos + 1, pos + pg.row_len(r)
+            pos = b
+            if r[0] == "F" and not any(x <= b and a <= y for x, y in mine):
+                rows.append(r)
+        if rows:
+            out[s["name"]] = rows
+    return out
+
+
 def expected_routes(case):
-    """-> ([(piece, Pretext scaffold number, destination)], {absent input scaffold name: destination}, hap tags)"""
+    """
+    -> ([(piece, Pretext scaffold number, destination)], {absent input scaffold name: destination}, hap tags,
+        {partly placed input scaffold name: (contig rows absent from the map, destination)})
+    """
     mp = case["map"]
     infos = [pg.read_scaffold_tags(psc) for psc in mp["scaffolds"]]
     hap_tags = []
@@ -108,7 +145,14 @@ def expected_routes(case):
             else:
                 h = hap_by_name(s["name"], hap_tags)
                 absent[s["name"]] = ("hap", h.lower()) if h else None
-    return routes, absent, hap_tags
+    leftover = {}
+    for name, rows in leftover_contigs(case).items():
+        if target_seen:
+            leftover[name] = (rows, "Contaminant")
+        else:
+            h = hap_by_name(name, hap_tags)
+            leftover[name] = (rows, ("hap", h.lower()) if h else None)
+    return routes, absent, hap_tags, leftover
 
 
 def primary_of(case, hap_tags):
@@ -258,14 +302,14 @@ def routing_problems(case, out, files=None):
     first_contig = {s["name"]: next(r[1] for r in s["rows"] if r[0] == "F") for s in inp}
     idx = pg.OutIndex(out)
     fidx = FileIndex(files) if files is not None else None
-    routes, absent, hap_tags = expected_routes(case)
+    routes, absent, hap_tags, leftover = expected_routes(case)
     prim = primary_of(case, hap_tags)
     primary = prim[1] if prim else None
     if prim:
         # sequence of the curated haplotype walked before the Primary tag has been seen: not judged
         routes = [(pc, k, "ambiguous" if k < prim[0] and (d is None or d == ("hap", primary)) else d) for pc, k, d in routes]
     # a map of haplotypes only: the statement sends no sequence to the primary assembly
-    haplotypes_only = bool(hap_tags) and not any(d is None or d == "ambiguous" for _, _, d in routes) and not any(d is None for d in absent.values())
+    haplotypes_only = bool(hap_tags) and not any(d is None or d == "ambiguous" for _, _, d in routes) and not any(d is None for d in absent.values()) and not any(d is None for _, d in leftover.values())
     problems = []
     file_problems = []
     judged = 0
@@ -331,6 +375,19 @@ def routing_problems(case, out, files=None):
             problems.append((f"{what} belongs in {show(dest, primary)} but {bad} bases were written elsewhere", known))
         else:
             judge_files(what, in_toks[name], dest)
+    for name, (rows, dest) in leftover.items():
+        judged += 1
+        toks = pg.tokens(rows)
+        keys = where_of(toks, idx)
+        bad = {key: n for key, n in keys.items() if not key_matches(key, dest, primary)}
+        ctgs = ", ".join(f"{r[1]}:{r[2]}-{r[3]}" for r in rows[:3]) + (", ..." if len(rows) > 3 else "")
+        why = " (a Target tag has been seen: all sequence absent from the map is contaminant)" if dest == "Contaminant" else ""
+        what = f"contig(s) {ctgs} of input scaffold {name!r} are absent from the map (other contigs of that scaffold are placed) and"
+        if bad:
+            known = class_of(name, rows[0][1], dest, bad, hap_tags)
+            problems.append((f"{what} belong in {show(dest, primary)}{why} but {bad} bases were written elsewhere", known))
+        else:
+            judge_files(what, toks, dest)
     routed_right = not problems
     # the curated flag of every returned assembly: the tag destinations are the only assemblies that are not curated
     for key, asm in out.items():
@@ -777,6 +834,168 @@ def precede_case(haps, rot, special, place, target, bpt, second, rng, n, primary
     return case
 
 
+# ------------------------------------------------------------------------------- partly placed input scaffolds
+
+# (contig lengths, gaps between them): the input scaffold of which only a part is in the map
+PARTIAL_GEOMS = (
+    ((400, 90, 40), ((10, "scaffold"), (200, "scaffold"))),
+    ((150, 40, 90), ((200, "scaffold"), None)),
+    ((400, 7), (None,)),  # a tail shorter than a texel, abutting: absent when PretextView rounds the scaffold down
+    ((150, 90, 2), ((10, "scaffold"), (10, "scaffold"))),  # the same behind a gap
+    ((90, 150, 40, 400), ((200, "scaffold"), (10, "scaffold"), (1, "contig"))),
+)
+PARTIAL_HOSTS = ("own_painted", "tail", "unpainted_after", "unpainted_before", "unpainted_target", "special", "unloc")
+
+
+def partial_pieces(s, bpt, rounding, dropped, pick):
+    """
+    the PretextView pieces of input scaffold `s` cut on texel boundaries that separate the contigs numbered in `dropped`
+    from the others WITHOUT cutting a contig (boundary inside the gap between them, or exactly on their junction; `pick`
+    chooses among several), minus the pieces holding the dropped contigs: what is left of the scaffold in a map after the
+    curator threw those pieces out.  A boundary at the rounded end of the scaffold means the dropped tail is the part
+    PretextView rounds away.  None if there is no such boundary at this texel size.
+    """
+    rows = s["rows"]
+    n = pg.texels(pg.rows_len(rows), bpt, rounding)
+    if n < 1:
+        return None
+    f = pg.bptF(bpt)
+    spans = []
+    pos = 0
+    for r in rows:
+        ln = pg.row_len(r)
+        if r[0] == "F":
+            spans.append((pos + 1, pos + ln))
+        pos += ln
+    cuts = []
+    for j in range(len(spans) - 1):
+        if (j in dropped) == (j + 1 in dropped):
+            continue
+        lo, hi = spans[j][1], spans[j + 1][0] - 1  # the boundary lies after base b, lo <= b <= hi
+        t0 = math.ceil(Fraction(lo) / f)
+        cands = [t for t in range(t0, t0 + 40) if math.floor(t * f) <= hi and 1 <= t <= n]
+        if not cands or (cuts and cands[-1] <= cuts[-1]):
+            return None
+        cands = [t for t in cands if not cuts or t > cuts[-1]]
+        cuts.append(cands[pick % len(cands)])
+    bounds = [0, *cuts] + ([n] if not cuts or cuts[-1] != n else [])
+    kept = []
+    for a, b in itertools.pairwise(bounds):
+        start, end = pg.texel_piece(a, b, bpt)
+        inside = [j for j, (x, y) in enumerate(spans) if x <= end and start <= y]
+        if inside and not any(j in dropped for j in inside):
+            kept.append([s["name"], start, end])
+    return kept
+
+
+def partial_case(haps, geom, dropped, host, target, bpt, rounding, rng, n, cli=True):
+    """
+    a map of len(haps) haplotypes (2 painted chromosomes per haplotype, 3 without haplotypes; Target on every painted
+    scaffold if `target`), one unplaced scaffold per haplotype, and ONE input scaffold P with contigs `geom` of which the
+    contigs `dropped` are absent from the map; the rest of P sits in `host`:
+      own_painted       a painted (Target) scaffold of its own         tail     behind a painted (Target) chromosome
+      unpainted_after   an untagged unpainted scaffold behind the chromosomes (Target mode: itself contaminant)
+      unpainted_before  an untagged unpainted scaffold in front of the first (Target) scaffold of the map
+      unpainted_target  an unpainted scaffold carrying the Target tag
+      special           behind a painted chromosome, tagged Haplotig / Contaminant / FalseDuplicate
+      unloc             behind a painted chromosome, tagged Unloc
+    None if P cannot be cut cleanly at this texel size.
+    """
+    n_hap = len(haps)
+    order = (list(haps) * 2) if n_hap else [None] * 3
+    inp = []
+    counter = [0]
+
+    def new_scaffold(hap, lengths, gaps=None, naming=None):
+        counter[0] += 1
+        i = counter[0]
+        name = f"{hap.upper()}_SCAFFOLD_{i}" if hap else f"scaffold_{i}"
+        naming = "fasta" if hap else (naming or rng.choice(("own", "fasta")))
+        sc = pg.make_scaffold(name, lengths, [rng.choice((1, -1)) for _ in lengths], gaps, naming, tag=str(i))
+        inp.append(sc)
+        return sc
+
+    def whole(sc):
+        return pg.pieces_of(sc, bpt, "floor", ())[0]
+
+    chrom_len = (1000, 900, 800, 700, 650, 600)
+    plan = []
+    for j, h in enumerate(order):
+        sc = new_scaffold(h, [chrom_len[j]])
+        plan.append({"painted": True, "hap": h, "name_tag": None, "target": target, "pieces": [(whole(sc), rng.choice((1, -1)), [])]})
+    unplaced = []
+    for h in haps or (None,):
+        sc = new_scaffold(h, [120])
+        unplaced.append({"painted": False, "hap": None, "name_tag": None, "target": False, "pieces": [(whole(sc), 1, [])]})
+    p_hap = haps[n % n_hap] if n_hap else None
+    lengths, gaps = geom
+    p_sc = new_scaffold(p_hap, list(lengths), list(gaps), naming=("fasta", "own", "offset")[n % 3])
+    kept = partial_pieces(p_sc, bpt, rounding, set(dropped), n)
+    if not kept:
+        return None
+    pcs = [(pc, rng.choice((1, -1)), []) for pc in kept]
+    before = []
+    if host == "own_painted":
+        plan.append({"painted": True, "hap": p_hap, "name_tag": None, "target": target, "pieces": pcs})
+    elif host in ("tail", "special", "unloc"):
+        sc = next(x for x in plan if x["hap"] == p_hap)
+        tag = {"tail": [], "unloc": ["Unloc"], "special": [pg.SPECIAL_TAGS[n % 3]]}[host]
+        sc["pieces"].extend((pc, st, list(tag)) for pc, st, _ in pcs)
+    elif host == "unpainted_before":
+        before.append({"painted": False, "hap": None, "name_tag": None, "target": False, "pieces": pcs})
+    else:
+        unplaced.insert(n % (len(unplaced) + 1), {"painted": False, "hap": None, "name_tag": None, "target": target and host == "unpainted_target", "pieces": pcs})
+    mp = pg.plan_to_map(before + plan + unplaced, bpt, rng)
+    case = {"input": inp, "map": mp, "prefix": ("SUPER_", "chr")[n % 2], "via": pg.pick_via(inp, n), "mode": ("single", "one", "two", "three")[n_hap], "partial": host}
+    if cli:
+        case["cli_out"] = CLI_OUT_NAMES[n % len(CLI_OUT_NAMES)]
+    return case
+
+
+def proper_subsets(k):
+    return [c for r in range(1, k) for c in itertools.combinations(range(k), r)]
+
+
+def partial_cases(tier, rng):
+    """
+    ENUMERATED scope "an input scaffold is only partly in the map" (statement: once a Target tag has been seen ... all
+    sequence absent from the map is treated as contaminant): every geometry of PARTIAL_GEOMS x every non-empty proper subset
+    of its contigs absent from the map (leading, middle, trailing contigs; dropped pieces, and tails shorter than a texel
+    that PretextView rounds away) x every place for the rest of the scaffold (PARTIAL_HOSTS) in maps of 0, 1 or 2 haplotypes.
+    quick: Target mode three times out of four, number of haplotypes / texel size (1, 10) / rounding rotate, every second case
+    through the command line; thorough: Target mode on and off x 0-2 haplotypes x texel sizes 1, 10, 33.3 x floor/ceil, all
+    through the command line, PLUS seeded geometries (2-5 contigs of 2-400 bp, seeded gaps, seeded absent subset).
+    """
+    quick = tier == "quick"
+    n = 0
+    for geom in PARTIAL_GEOMS:
+        for dropped in proper_subsets(len(geom[0])):
+            for host in PARTIAL_HOSTS:
+                if quick:
+                    n += 1
+                    combos = [((), ("Hap1",), ("Hap1", "Hap2"))[n % 3]], [n % 4 != 0], [(10.0, 1.0)[(n // 3) % 2]], [("floor", "ceil")[(n // 2) % 2]]
+                else:
+                    combos = [(), ("Mat",), ("Hap1", "Hap2")], [True, False], [1.0, 10.0, 33.3], ["floor", "ceil"]
+                for haps, target, bpt, rounding in itertools.product(*combos):
+                    n += not quick
+                    case = partial_case(haps, geom, dropped, host, target, bpt, rounding, rng, n, cli=not quick or n % 2 == 0)
+                    if case is None and quick:
+                        case = partial_case(haps, geom, dropped, host, target, 1.0, rounding, rng, n, cli=n % 2 == 0)
+                    if case is not None:
+                        yield case
+    if quick:
+        return
+    for i in range(6000):
+        k = rng.randint(2, 5)
+        lengths = tuple(rng.choice((2, 7, 40, 90, 150, 400)) for _ in range(k))
+        gaps = tuple(rng.choice((None, (1, "contig"), (10, "scaffold"), (200, "scaffold"))) for _ in range(k - 1))
+        dropped = rng.choice(proper_subsets(k))
+        haps = rng.choice(((), ("Hap1",), rng.choice(HAP_TAG_SETS)))
+        case = partial_case(haps, (lengths, gaps), dropped, rng.choice(PARTIAL_HOSTS), rng.random() < 0.75, rng.choice(pg.BPTS), rng.choice(("floor", "ceil")), rng, i, cli=i % 10 == 0)
+        if case is not None:
+            yield case
+
+
 # hand-made minimal case that is always run: HAP1_3 begins with "<haplotype>_" but is written to the primary assembly
 FIXED_CASES = [
     {
@@ -808,7 +1027,11 @@ def run(tier, seed, **opts):
         "without and with Target mode; the same maps of 2-3 haplotypes in Primary-tag mode (Primary tag on the first painted scaffold "
         "of each haplotype in turn, a Haplotig, a Contaminant and a FalseDuplicate piece in every map, one of them in every "
         "position): tag files not curated, curated haplotype in *.primary.curated.*, other haplotypes in "
-        "*.all_haplotigs.curated.* / their own curated file; every enumerated case and every n-th seeded case is also run through the "
+        "*.all_haplotigs.curated.* / their own curated file; PLUS an enumerated scope of PARTLY placed input scaffolds (2-4 contigs, every non-empty "
+        "proper subset of them absent from the map - dropped pieces and sub-texel tails rounded away -, the rest painted into a Target scaffold, "
+        "in an untagged / Target-tagged unpainted scaffold before or after the first Target, or tagged Haplotig / Contaminant / "
+        "FalseDuplicate / Unloc; Target mode on and off, 0-2 haplotypes): every absent contig is judged like an absent scaffold (Target "
+        "seen anywhere -> Contaminant, else haplotype by input name, else primary); every enumerated case and every n-th seeded case is also run through the "
         "pretext-to-asm command line (TPF or AGP output) and every judged base is looked up in the written files, whose "
         "names must be the documented destination (*.contaminants.*, *.falseduplicates.*, *haplotigs.*, "
         "*.primary.curated.*, *.<hap>.*.primary.curated.*); non-trivial = distinct completed case with >= 1 judged "
@@ -816,7 +1039,7 @@ def run(tier, seed, **opts):
     )
     n_cases = 4000 if tier == "quick" else 120000
     cli_every = 25 if tier == "quick" else 40  # every n-th seeded case is also run through the command line
-    stats = {"rejected_tagging": 0, "judged": 0, "single": 0, "one": 0, "two": 0, "three": 0, "enumerated": 0, "enumerated_rejected": 0, "cli": 0, "primary_mode": 0}
+    stats = {"rejected_tagging": 0, "judged": 0, "single": 0, "one": 0, "two": 0, "three": 0, "enumerated": 0, "enumerated_rejected": 0, "cli": 0, "primary_mode": 0, "partial": 0, "partial_rejected": 0, "partial_with_absent_contigs": 0}
     known_failures = {}
 
     def stream():
@@ -826,6 +1049,8 @@ def run(tier, seed, **opts):
             yield "enumerated", -1, c
         for c in primary_cases(tier, random.Random(f"c09-primary-{seed}")):
             yield "enumerated", -1, c
+        for c in partial_cases(tier, random.Random(f"c09-partial-{seed}")):
+            yield "partial", -1, c
         for i in range(n_cases):
             c = make_case(rng, i)
             if i % cli_every == 5:
@@ -842,6 +1067,10 @@ def run(tier, seed, **opts):
         if family == "enumerated":
             stats["enumerated"] += 1
             stats["enumerated_rejected"] += judged is None
+        if family == "partial":
+            stats["partial"] += 1
+            stats["partial_rejected"] += judged is None
+            stats["partial_with_absent_contigs"] += judged is not None and bool(leftover_contigs(case))
         if judged is None:
             stats["rejected_tagging"] += 1
         else:
@@ -855,7 +1084,8 @@ def run(tier, seed, **opts):
         bounds=(
             "3-7 input scaffolds x <= 2 contigs, contig lengths {1,2,7,40,150,400}, texel sizes {1,2.5,10,33.3}, <= 2 cuts per "
             f"scaffold, <= 4 painted scaffolds; {len(FIXED_CASES)} fixed hand-made case + {stats['enumerated']} enumerated tagged-piece-position cases "
-            f"(all enumerated; {stats['enumerated_rejected']} of them rejected; {stats['primary_mode']} in Primary-tag mode) + {n_cases} seeded cases; cases also run through the command line: {stats['cli']}; "
+            f"(all enumerated; {stats['enumerated_rejected']} of them rejected; {stats['primary_mode']} in Primary-tag mode) + {stats['partial']} partly-placed-input-scaffold cases "
+            f"({stats['partial_rejected']} rejected, {stats['partial_with_absent_contigs']} completed with >= 1 contig of a placed scaffold absent from the map) + {n_cases} seeded cases; cases also run through the command line: {stats['cli']}; "
             f"pieces/absent scaffolds judged: {stats['judged']}; maps "
             f"rejected with TaggingError/ChrNamerError (allowed, not judged): {stats['rejected_tagging']}; "
             f"modes: single={stats['single']} one-haplotype={stats['one']} two-haplotype={stats['two']} three-haplotype={stats['three']}; cases failing only in a "
